@@ -171,6 +171,7 @@ func checkC20(p *Prog, r *Report) {
 	r.Check("R2", "summary:model.UseCaseInformationDataType.Add", found, "", "recognised as writing elements of its receiver's UseCaseSupport list (callers must hand it a private list)")
 
 	sliceEqualityLint(p, r, "R6")
+	sharedGlobalCells(p, r, "R9")
 	writeBackIndexRule(p, r, "R7")
 	r.Rule("R8", "remove-all rebuilds the use-case information list keeping exactly the entries whose address differs from the entity's (retain truth table): every actor's entry of the entity goes, not just the first")
 	applyRetain(p, r, "R8", "model", "NodeManagementUseCaseDataType", "RemoveUseCaseDataForAddress", retainSpec{Field: "NodeManagementUseCaseDataType.UseCaseInformation", Required: map[string]string{"address": "=Address"}})
